@@ -42,6 +42,10 @@ Observe(d, s, o) ==
   ELSE IF ~PhaseMeanOK(d, s, o) THEN <<"PhaseDef", "phase_mean">>
   ELSE IF ~Shape(o.anomaly, Len(s.t), Len(s.s)) THEN <<"Shapes", "anomaly">>
   ELSE IF ~AnomalyOK(d, s, o) THEN <<"AnomalyDef", "anomaly">>
+  ELSE IF ~(Shape(o.shuffled, Len(s.t), Len(s.s)) /\ \A b \in 1..Len(s.s) : \A a \in 1..Len(s.t) :
+              Cardinality({t \in 1..Len(s.t) : o.shuffled[t][b] = o.anomaly[a][b]})
+              = Cardinality({t \in 1..Len(s.t) : o.anomaly[t][b] = o.anomaly[a][b]}))
+       THEN <<"AnomalyDef", "shuffled_anomaly">>
   ELSE <<"", "">>
 
 Rec == Trace[i]
